@@ -152,7 +152,8 @@ def split(key, num=2):
 
 def uniform(key, shape=(), dtype=float, minval=0.0, maxval=1.0):
     dtype = jnp.zeros((), dtype).dtype
-    u = uniform_p.bind(key, shape=tuple(shape), dtype=dtype)
+    import operator
+    u = uniform_p.bind(key, shape=tuple(operator.index(s) for s in shape), dtype=dtype)     # concrete arrays are valid sizes (as in jax.random)
     return minval + (maxval - minval) * u
 
 
